@@ -270,3 +270,43 @@ Qed.
 
 Lemma reply_pipe_no_addition reg req : reply_pipe reg req [] = req.
 Proof. unfold reply_pipe, pipe_append. cbn [pipe_append_loop]. destruct (Nat.ltb 255 (length req)); reflexivity. Qed.
+
+(* ---- a sequence of calls on one connection ---- *)
+Lemma exchange_learns_callers_pipe reg ids p :
+  pipe_append reg [] ids = (p, None) -> exchange reg ids [] = Some (ids, ids).
+Proof.
+  intros Ha. unfold exchange. rewrite Ha, reply_pipe_no_addition.
+  destruct (append_ok_ids _ _ _ Ha) as (Hids & _ & _). rewrite Hids, Ha, Hids. reflexivity.
+Qed.
+
+Lemma exchange_refuses_unregistered reg ids added :
+  (exists id, In id ids /\ reg_get reg id = None) -> exchange reg ids added = None.
+Proof.
+  intros Hx. destruct (append_unknown_refused reg [] ids Hx) as (p' & id' & Ha & _).
+  unfold exchange. rewrite Ha. reflexivity.
+Qed.
+
+Lemma conn_exchange_positionwise reg before c after :
+  nth_error (conn_exchange reg (before ++ c :: after)) (length before) =
+  Some (exchange reg (fst c) (snd c)).
+Proof.
+  unfold conn_exchange. rewrite nth_error_map, nth_error_app2, Nat.sub_diag by lia. reflexivity.
+Qed.
+
+(* ---- bounded unpacking: exact or refused, never truncated ---- *)
+Lemma limit_filter_exact_or_refused lim f x y :
+  inverts f -> f_pack (limit_filter lim f) x = Some y ->
+  f_unpack (limit_filter lim f) y = if over_limit lim x then None else Some x.
+Proof.
+  intros Hi Hp. cbn [limit_filter f_pack f_unpack] in *. rewrite (Hi _ _ Hp). reflexivity.
+Qed.
+
+Lemma limit_filter_never_alters lim f d x :
+  f_unpack (limit_filter lim f) d = Some x -> f_unpack f d = Some x /\ over_limit lim x = false.
+Proof.
+  cbn [limit_filter f_unpack]. destruct (f_unpack f d) as [z|]; [|discriminate].
+  destruct (over_limit lim z) eqn:E; [discriminate|]. intros H; inversion H; subst. auto.
+Qed.
+
+Lemma limit_filter_no_limit f d : f_unpack (limit_filter 0 f) d = f_unpack f d.
+Proof. cbn [limit_filter f_unpack]. destruct (f_unpack f d); reflexivity. Qed.
